@@ -8,4 +8,4 @@ CONSTANTS
  NS = 1
  MaxLen = 2
  Pars = {0}
- Alphabet = "full"
+ Alphabet = "core"
